@@ -2,11 +2,14 @@
    input :  rt_on chk_parent n  then n records of 16 integers  (opcode a1 .. a15)
      1 QuotaAdd     id parent lend d1 d2 d3 max1 max2 max3 min1 min2 min3 w1 w2 w3   (min = -1: key absent)
      2 QuotaUpdate  id _ _ _ _ _ max1 max2 max3 min1 min2 min3 w1 w2 w3
-     3 PodAdd       id quota np r1 r2 r3                          (r = -1: the pod has no such key)
+     3 PodAdd       id quota np r1 r2 r3 phase                    (r = -1: the pod has no such key;
+                    phase: 0 none, 1 Pending, 2 Running, 3 Succeeded, 4 Failed — the model keeps "terminated" = 3 <= phase)
      4 Attempt id   5 Unreserve id   6 PodDelete id   7 Capacity t1 t2 t3
-     8 PodAddBound  id quota np r1 r2 r3
+     8 PodAddBound  id quota np r1 r2 r3 phase
      9 Check id (PreFilter alone)   10 Reserve id (Reserve alone)   11 FlipLend id (allow-lent-resource label flipped)
      12 PodRelabel id (pod update flipping only the preemptible label)
+     14 Restart (scheduler restart: ReplaceQuotas + node + every pod object replayed through OnPodAdd)
+     13 PodStatus id phase bind (pod update changing only the status phase and, bind <> 0, setting the node name)
    observation, per operation:
      status  nl (id l1 l2 l3)*nl  nd (id u1 u2 u3 n1 n2 n3)*nd *)
 From Coq Require Import List ZArith Bool.
@@ -24,17 +27,19 @@ Definition dec_op (l : list Z) : op * list Z :=
     ((if c =? 1 then OQuotaAdd a1 a2 (zb a3) (mkMask (zb a4) (zb a5) (zb a6)) mx mindecl mn w
       else if c =? 2 then OQuotaUpdate a1 mx mindecl mn w
       else if c =? 3 then OPodAdd a1 a2 (zb a3) (mkVec (Z.max 0 a4) (Z.max 0 a5) (Z.max 0 a6))
-                                  (mkMask (0 <=? a4) (0 <=? a5) (0 <=? a6))
+                                  (mkMask (0 <=? a4) (0 <=? a5) (0 <=? a6)) (3 <=? a7)
       else if c =? 4 then OAttempt a1
       else if c =? 5 then OUnreserve a1
       else if c =? 6 then OPodDelete a1
       else if c =? 7 then OCapacity (mkVec a1 a2 a3)
       else if c =? 8 then OPodAddBound a1 a2 (zb a3) (mkVec (Z.max 0 a4) (Z.max 0 a5) (Z.max 0 a6))
-                                       (mkMask (0 <=? a4) (0 <=? a5) (0 <=? a6))
+                                       (mkMask (0 <=? a4) (0 <=? a5) (0 <=? a6)) (3 <=? a7)
       else if c =? 9 then OCheck a1
       else if c =? 10 then OReserve a1
       else if c =? 11 then OQuotaFlipLend a1
       else if c =? 12 then OPodRelabel a1
+      else if c =? 13 then OPodStatus a1 (3 <=? a2) (zb a3)
+      else if c =? 14 then ORestart
       else ONop), t)
   | _ => (ONop, [])
   end.
